@@ -243,6 +243,7 @@ static void run_buffer(Src &s, Case &c, const char *tname)
     }
     // one view object re-used for consecutive fields (a record loop): it must show each field in turn, also when two
     // fields have the same length and the same bytes up to a NUL
+    if (a.size() + 4 <= 65535) // the length field has 16 bits
     {
         std::string a2 = a + std::string("\0one", 4), b2 = a + std::string("\0two", 4), e2;
         igris::archive::binary_string_writer w(e2);
